@@ -263,6 +263,14 @@ func (g *psGen) decorateList(items []ListItem, distract func() []ListItem, allow
 		out = append(out, items[i])
 		i++
 	}
+	// occasionally a poryswitch whose selected case is empty
+	if allowBrace && g.r.Chance(1, 6) {
+		w := g.wrapItems([]ListItem{}, distract, true)
+		if w.PS != nil {
+			k := g.r.Intn(len(out) + 1)
+			out = append(out[:k], append([]ListItem{w}, out[k:]...)...)
+		}
+	}
 	return out
 }
 
